@@ -267,6 +267,8 @@ def run(prop, tier, quick_slices, thorough_slices, nontrivial, drive_profile="mi
             if nb_stats.get(sl, [0, 0])[0] >= (40 if thorough else 10):
                 break
             loc = graphs[sl].locate(calls) if sl in graphs else None
+            if os.environ.get("VERIF_DEBUG_NB"):
+                vlib.log("[nb] %s departure at depth %d fields=%s located=%s" % (pname, len(calls), fields, bool(loc)))
             if not loc:
                 continue
             sig = (sl, loc[1], fields)
